@@ -39,7 +39,8 @@ def gen(rng, tier):
     from e2_world import world as W
     from e2_world import catalog as C
     big = tier == 'thorough' and rng.random() < 0.5
-    world = W.gen_world(rng, max_slabs=6 if big else 4, max_halos=12 if big else 6, max_parts=8 if big else 4)
+    lc = rng.random() < 0.1
+    world = W.gen_world(rng, max_slabs=6 if big else 4, max_halos=12 if big else 6, max_parts=8 if big else 4, lc=lc)
     inds = [s['index'] for s in world['slabs']]
     kind = rng.choice(['zdir', 'list', 'list', 'list'])
     order = list(inds)
@@ -47,6 +48,10 @@ def gen(rng, tier):
         order = rng.sample(inds, rng.randrange(1, len(inds) + 1))
     cleaned = bool(world['cleaned'] and rng.random() < 0.7)
     ab = rng.choice([[], ['A'], ['B'], ['A', 'B']])
+    if lc:
+        ab = rng.choice([[], ['A']])
+        kind = 'zdir'
+        order = list(inds)
     cols = rng.choice([['pos', 'vel', 'pid'], ['pid'], ['pos'], ['rv']])
     sub = {k: True for k in ab + cols} if ab else False
     allh = [h for s in world['slabs'] for h in s['halos']]
@@ -60,9 +65,13 @@ def gen(rng, tier):
     elif fkind == 'nothing-in-one-slab':
         filt['slab'] = rng.choice(order)
     fields = rng.choice(['DEFAULT_FIELDS', 'all', ['id', 'N'], ['id', 'N', 'x_com', 'r50_L2com']])
+    if lc:
+        fields = rng.choice(['DEFAULT_FIELDS', 'all', ['index_halo', 'N'], ['index_halo', 'N', 'x_L2com', 'r50_L2com']])
+        if fkind == 'ids':
+            filt = {'kind': 'lcids', 'ids': sorted(h['raw']['index_halo'] for h in allh if rng.random() < 0.5)}
     return {'world': world, 'knobs': C.gen_knobs(rng), 'path': {'kind': kind, 'order': order, 'as_path': rng.random() < 0.5},
             'cleaned': cleaned, 'subsamples': sub, 'AB': ab, 'filter': filt, 'fields': fields,
-            'negative': rng.choice([None, None, 'duplicate', 'mixed'])}
+            'negative': None if lc else rng.choice([None, None, 'duplicate', 'mixed'])}
 
 
 def _keep_model(world, case):
@@ -72,11 +81,13 @@ def _keep_model(world, case):
     for s in world['slabs']:
         row = []
         for h in s['halos']:
-            n = h['clean']['N_total'] if case['cleaned'] else h['raw']['N']
+            n = h['clean']['N_total'] if (case['cleaned'] and not world.get('lc')) else h['raw']['N']
             if f['kind'] in ('none', 'all'):
                 k = True
             elif f['kind'] == 'ids':
                 k = h['raw']['id'] in f['ids']
+            elif f['kind'] == 'lcids':
+                k = h['raw']['index_halo'] in f['ids']
             elif f['kind'] == 'N':
                 k = n >= f['thr']
             elif f['kind'] == 'nothing':
@@ -97,11 +108,16 @@ def _filter_func(case, world):
     if f['kind'] == 'ids':
         ids = np.array(f['ids'], dtype=np.uint64)
         return lambda h: np.isin(np.asarray(h['id']), ids)
+    if f['kind'] == 'lcids':
+        ids = np.array(f['ids'], dtype=np.int64)
+        return lambda h: np.isin(np.asarray(h['index_halo']), ids)
     if f['kind'] == 'N':
         return lambda h: np.asarray(h['N']) >= f['thr']
     if f['kind'] == 'nothing':
         return lambda h: np.zeros(len(h), dtype=bool)
     slab = next(s for s in world['slabs'] if s['index'] == f['slab'])
+    if world.get('lc'):
+        return lambda h: np.zeros(len(h), dtype=bool)
     bad = np.array([h['raw']['id'] for h in slab['halos']], dtype=np.uint64)
     return lambda h: ~np.isin(np.asarray(h['id']), bad)
 
@@ -131,7 +147,8 @@ def run(case):
         gd, written = W.write_world(world, root, knobs)
         C.prelude(world, knobs, root, out['faults'])
         arg, order = C.path_argument(world, gd, case['path'])
-        kw = dict(cleaned=case['cleaned'], subsamples=copy.deepcopy(case['subsamples']), fields=copy.deepcopy(case['fields']))
+        lc = bool(world.get('lc'))
+        kw = dict(cleaned=case['cleaned'] or lc, subsamples=copy.deepcopy(case['subsamples']), fields=copy.deepcopy(case['fields']))
         # the index columns needed for subsamples are added automatically only for cleaned loads (that is C02's
         # business); keep C03 independent of it by requesting them explicitly for field subsets
         if isinstance(kw['fields'], list) and case['AB']:
@@ -151,7 +168,7 @@ def run(case):
         U = load(arg)
         if U is None:
             return out
-        rows = W.expected_particles(world, order, case['cleaned'], case['AB'])
+        rows = W.expected_particles(world, order, case['cleaned'] and not lc, case['AB'])
         if len(U.halos) != len(rows):
             violation(out, 'row-count', site, 'combined load has %d rows, the files hold %d halos' % (len(U.halos), len(rows)))
             return out
@@ -160,7 +177,7 @@ def run(case):
             violation(out, 'row-order', site, 'halo ids are not the concatenation of the files in order')
             return out
         if case['AB']:
-            bad = C.check_subsamples(U, world, rows, case['AB'])
+            bad = C.check_lc_subsamples(U, world) if lc else C.check_subsamples(U, world, rows, case['AB'])
             if bad:
                 violation(out, bad[0], site + '.subsamples', bad[1])
                 return out
@@ -198,7 +215,7 @@ def run(case):
             F = load(arg, ff, tag='[filtered]')
             if F is None:
                 return out
-            frows = W.expected_particles(world, order, case['cleaned'], case['AB'], keep=keep)
+            frows = W.expected_particles(world, order, case['cleaned'] and not lc, case['AB'], keep=keep)
             if len(F.halos) != len(frows):
                 violation(out, 'filtered-row-count', site + '[filtered]', 'got %d rows, mask keeps %d' % (len(F.halos), len(frows)))
                 return out
@@ -208,7 +225,12 @@ def run(case):
             if d:
                 violation(out, 'filter-does-not-commute', site + '[filtered]', d)
                 return out
-            if case['AB']:
+            if case['AB'] and lc:
+                bad = C.check_lc_subsamples(F, world, keep=keep[order[0]])
+                if bad:
+                    violation(out, bad[0], site + '[filtered].subsamples', bad[1])
+                    return out
+            elif case['AB']:
                 bad = C.check_subsamples(F, world, frows, case['AB'])
                 if bad:
                     violation(out, bad[0], site + '[filtered].subsamples', bad[1])
